@@ -51,6 +51,12 @@ CHECKS = {
  "C02": dict(cat="model_checking", sec="5.2", tech="explicit-state reference AMF/SMF model executed against the real emulator process; full product of repetition counts, deviation-bounded assigned values, in-process return values",
    text="Full product of the five repetition counts in {0..2}^5 (quick) / {0..3}^5 (thorough) plus 16-/20-UE vectors, all <=2-deviation vectors of network-assigned values, and in-process NGSetup+Register+EstablishPDU over the address/TEID product; the model checks prerequisites, identifiers, PSI consistency and range, distinct SUPIs, uplink COUNT uniqueness and MACs on every message and the final state of every UE.",
    note="AMF keeps the AMF-UE-NGAP-ID across a Service Request and does not check the hard-coded 5G-S-TMSI/ngKSI; the AMF re-activates the UE's session in the ICS request answering a Service Request"),
+ "C18": dict(cat="exploration", sec="5.18", tech="deviation-bounded exhaustive enumeration of configuration files and of all argument vectors of length 0..3; wire values observed by the reference AMF",
+   text="Configuration files are generated from typed values over an alphabet per documented key (24 keys; quoting styles, escapes, empty strings, numeric extremes, both key orders), all files with <=1 (quick) / <=2 (thorough) deviations; GetConfiguration must return the typed values key by key; the values observable on the wire (IMSI, PLMN, gNB id/length/name, K/OP/OPc, S-NSSAI, gnb_gtp_ip, repetition counts) are checked by the reference AMF in closed-system runs; all 259 argument vectors of length 0..3 over a 6-symbol alphabet are run at process level (banner, usage, messages reaching the AMF).",
+   note="YAML expectations for quoted scalars; traffic mode cannot start in the sandbox, only its selection is observed"),
+ "C19": dict(cat="fault_enumeration", sec="5.19", tech="exhaustive enumeration of fault points (every downlink message index x 4 fault kinds x count vectors) on the real process under a syscall monitor",
+   text="For each count vector every downlink message index of the fault-free conversation is combined with {peer closes instead, ff ff ff, 00, truncated message}; the real process runs under strace, whose sendmsg/recvmsg history is the ground truth of what the emulator consumed; once it consumed the fault it must exit non-zero without the banner and without sending again, and it must always terminate within the horizon.",
+   note="strace as monitor; the message after Registration Complete is exempt for garbage (per the property); truncated messages that still decode are out of scope; thorough replays conversations with real sleeps to validate the time shim"),
 }
 
 NOT_YET = {}
